@@ -147,6 +147,7 @@ def make_plan(prop, seed):
         if r.random() < 0.3:
             spec["dispatcher"]["valid_dispatch_states"] = r.choice([["idle", "repositioning", "reservebase"], ["idle"], ["idle", "repositioning", "dispatchbase"]])
     elif prop == "C16":
+        rs["step_recorder"] = True
         rs["buggify"] = r.random() < 0.4
         rs["p_ext"] = r.choice([0.0, 0.1])
     elif prop == "C17":
